@@ -27,6 +27,17 @@
 (* tokens at once: the request is released when its *first* token is available, the rest        *)
 (* spills into the following cycles) and MultiRateLimiter (D = 2, used by the MQTT proxy with   *)
 (* T = 0).  The HTTP filter uses D = 1, n = 1.                                                  *)
+(*                                                                                              *)
+(* Scope for D >= 2 with T > 0 (MultiRateLimiter with a timeout; easegress never builds one).   *)
+(* There the code charges a request, per dimension, to that dimension's own first free cycle     *)
+(* but releases it at the latest of them, so its token counters are not the reservation table    *)
+(* of this contract (Conforms / RefInv / PerPeriodBound / ImmediateIfSpare / RejectOnlyIfFull    *)
+(* fail on the unchanged code: recorded as a lead, outside C09's quantifier).  WaitBound is a    *)
+(* statement about the reply alone - "no admitted request is made to wait longer than           *)
+(* timeoutDuration" - and needs no reservation table: it is the one clause model-checked         *)
+(* (grid GridMW), replayed and trace-validated for these limiters.  It holds for the arithmetic  *)
+(* because a request is admitted only if every dimension is below L*(H+1) tokens, so every       *)
+(* dimension's first free cycle is at most H cycles ahead.                                       *)
 (* Durations are integers (model checking: ticks; trace validation: microseconds).              *)
 EXTENDS Integers, Sequences, FiniteSets
 
